@@ -6,6 +6,7 @@ import FsDb.Spec.Iso
 import FsDb.Model.Wire
 import FsDb.Model.Dir
 import FsDb.Model.Persist
+import FsDb.Model.Conc
 /-!
   Line-protocol driver: one operation per line on stdin, one answer per line on stdout.
   Imports model/spec modules only (core Lean) so that it links as an executable.
@@ -21,6 +22,7 @@ structure St where
   dirs : Dir.St := { max := 100, roots := [] }
   gcounter : Nat := 0
   mdbs : List (Nat × Sys × Spec.State × Bool) := []     -- db id ↦ (model, spec, open?)
+  conc : Conc.St := {}                                   -- C06: small-step concurrency model
 
 def showVer (v : Option Ver) : String :=
   match v with
@@ -267,6 +269,53 @@ def stepCodec2 (a b : String) : String :=
   let rb := stepCodec ["dec", b]
   if ra == "err" || rb == "err" then "err" else ra ++ " | " ++ rb
 
+/-- hook point of the real code at which a goroutine is when the model thread is ABOUT TO execute `pc` -/
+def pcLabel : Conc.Pc → String
+  | .idle => "idle"
+  | .ret _ => "ret"
+  | .getContent _ _ _ => "uget.afterLookup"
+  | .keysContent _ _ => "ukeys.afterLookup"
+  | .gcCollect _ => "gc.horizon"
+  | .gcDelete _ => "gc.collected"
+  | .beginLock _ _ => "begin.start"
+  | .beginUnlock _ => "txrepo.store"
+  | .commitRun _ => "utx.start"
+  | _ => "-"
+
+/-- run thread `i` until it ARRIVES at a program counter labelled `target` (or at its return, or
+    until it cannot move); at a return the answer is printed and the thread goes back to idle -/
+def concUntil (σ : Conc.St) (i : Nat) (target : String) : Nat → Conc.St × String
+  | 0 => (σ, "fuel")
+  | fuel + 1 =>
+    match Conc.step σ i with
+    | none => (σ, if (σ.thr i).pc = .idle then "idle" else "blocked")
+    | some σ' =>
+      match (σ'.thr i).pc with
+      | .ret o => ((Conc.step σ' i).getD σ', "ret:" ++ showOut o)
+      | pc => if pcLabel pc == target then (σ', "at:" ++ target) else concUntil σ' i target fuel
+
+/-- C06 small-step sub-protocol (`conc …`): the same schedule as an enforced run of the real database -/
+def stepConc (st : St) (args : List String) : St × String :=
+  match args with
+  | ["new"] => ({ st with conc := {} }, "ok")
+  | "call" :: i :: rest =>
+    match i.toNat?, parseOp rest with
+    | some i, some op =>
+      match Conc.invoke st.conc i op with
+      | some σ => ({ st with conc := σ }, "ok")
+      | none => (st, "refused")
+    | _, _ => (st, "bad-op")
+  | ["until", i, target] =>
+    match i.toNat? with
+    | some i => let r := concUntil st.conc i target 100000; ({ st with conc := r.1 }, r.2)
+    | none => (st, "bad-op")
+  | ["at", i] =>
+    match i.toNat? with
+    | some i => (st, pcLabel (st.conc.thr i).pc)
+    | none => (st, "bad-op")
+  | ["lin"] => (st, toString st.conc.lin.length)
+  | _ => (st, "bad-op")
+
 def step (st : St) (line : String) : St × String :=
   match (line.trimAscii.toString.splitOn " ").filter (· ≠ "") with
   | "vf" :: args => let r := stepVF st.vf args; ({ st with vf := r.1 }, r.2)
@@ -278,6 +327,7 @@ def step (st : St) (line : String) : St × String :=
   | "cfg" :: args => (st, stepCfg args)
   | "sys" :: args => stepSys st args
   | "mdb" :: args => stepMdb st args
+  | "conc" :: args => stepConc st args
   | "dir" :: args => let r := stepDir st.dirs args; ({ st with dirs := r.1 }, r.2)
   | "life" :: args =>     -- C04: mutation order of one content id
     match args.mapM Persist.parse with
